@@ -222,6 +222,29 @@ def run_case(case):
                 if hit:
                     obs["viols"].append({"sig": "C09/user-variable-used-as-temporary", "detail": dict(detail, identifiers=hit)})
                     break
+            # two values, two temporaries: in a run of consecutive RUN statements (the calls hoisted out of one source
+            # statement) no temporary is written a second time before anything has read its first value
+            for ln_, sts in by_line.items():
+                pending = set()
+                hit = None
+                for st in sts:
+                    if st.k != "run" or not st.args:
+                        pending = set()
+                        continue
+                    ins = set()
+                    for a in st.args[:-1]:
+                        static.walk(a, lambda x: ins.add(x[1]) if x[0] == "ref" else None)
+                    pending -= ins
+                    last = st.args[-1]
+                    if last[0] == "ref" and not last[2] and last[1].startswith("tmp_"):
+                        obs["counters"]["temporary_writes_checked"] = obs["counters"].get("temporary_writes_checked", 0) + 1
+                        if last[1] in pending:
+                            hit = last[1]
+                            break
+                        pending.add(last[1])
+                if hit:
+                    obs["viols"].append({"sig": "C09/temporary-shared-by-two-values", "detail": dict(detail, identifier=hit)})
+                    break
             both = sorted(nm2 for nm2, ks in kinds.items() if len(ks) > 1)
             obs["counters"]["kind_checks"] = len(kinds)
             if both:
